@@ -33,12 +33,13 @@ type c02Edge struct {
 }
 
 type c02Case struct {
-	Kind  string    `json:"kind"` // graph | prefix
+	Kind  string    `json:"kind"` // graph | prefix | tprefix | random
 	N     int       `json:"n,omitempty"`
 	Edges []c02Edge `json:"edges,omitempty"`
 	Items []int     `json:"items,omitempty"`
 	Dest  string    `json:"dest"` // typed | iface
 	Mode  string    `json:"mode"`
+	Seed  int64     `json:"seed,omitempty"`
 }
 
 func c02Build(n int, edges []c02Edge) *gen.Node {
@@ -188,6 +189,32 @@ func runC02(a Args) tr.Summary {
 			seq = append(seq, objs[0], objs[len(objs)-1], "hello", objs[0])
 			g = gen.Gen{Name: "prefix:[]iface", T: reflect.TypeOf([]interface{}{}), Leaf: "prefix"}
 			v = reflect.ValueOf(seq)
+		case "tprefix":
+			// the same sequence in typed fields: every typed decoder's reference counter site is followed
+			// by back-references (the same pointers, equal strings)
+			objs := []interface{}{}
+			for _, i := range c.Items {
+				objs = append(objs, items[i]())
+			}
+			seq := append([]interface{}{}, objs...)
+			seq = append(seq, objs[0], objs[len(objs)-1], "hello", objs[0])
+			fs := make([]reflect.StructField, len(seq))
+			for i, o := range seq {
+				fs[i] = reflect.StructField{Name: fmt.Sprintf("F%d", i), Type: reflect.TypeOf(o)}
+				if fs[i].Type.Implements(reflect.TypeOf((*error)(nil)).Elem()) {
+					fs[i].Type = reflect.TypeOf((*error)(nil)).Elem()
+				}
+			}
+			st := reflect.StructOf(fs)
+			sv := reflect.New(st).Elem()
+			for i, o := range seq {
+				sv.Field(i).Set(reflect.ValueOf(o))
+			}
+			g = gen.Gen{Name: "tprefix:struct", T: st, Leaf: "tprefix"}
+			v = sv
+		case "random":
+			g = gen.RandomOpt(c.Seed, c.N, true)
+			v = g.Vals[0].V
 		}
 		roundTrip(t, id, g, gen.Val{V: v, Class: fmt.Sprint(c.Items, len(c.Edges))}, c.Mode, tr.Rec{"input": c, "kind": "c02"})
 		if id%997 == 5 && len(sum.Samples) < 5 {
@@ -235,9 +262,28 @@ func runC02(a Args) tr.Summary {
 			}
 		}
 	}
+	prefixes := id - graphs
+	errIdx := 13 // an error is not a typed round-trip type
+	for i := range items {
+		for j := range items {
+			if i == errIdx || j == errIdx {
+				continue
+			}
+			run(c02Case{Kind: "tprefix", Items: []int{i, j}, Dest: "typed", Mode: "ref"})
+			nontrivial++
+		}
+	}
+	nRandom := 2000
+	if a.Tier == "thorough" {
+		nRandom = 30000
+	}
+	for i := 0; i < nRandom; i++ {
+		run(c02Case{Kind: "random", N: 2 + i%3, Dest: "typed", Mode: "ref", Seed: a.Seed*1000003 + int64(i)})
+	}
 	sum.Cases = id
 	sum.Events = t.Lines
 	sum.Nontrivial = nontrivial
-	sum.Extra = tr.Rec{"graphs": graphs, "prefixes": id - graphs, "max_nodes": maxN, "max_edges": maxE, "exhaustive": true}
+	sum.Extra = tr.Rec{"graphs": graphs, "prefixes": prefixes, "typed_prefixes": id - graphs - prefixes - nRandom, "random": nRandom,
+		"max_nodes": maxN, "max_edges": maxE, "exhaustive": true}
 	return sum
 }
